@@ -2,6 +2,7 @@ import AmVerif.Gen.Skel
 import AmVerif.Lemmas.TopoGraph
 import AmVerif.Lemmas.Converge
 import AmVerif.Lemmas.Settle
+import AmVerif.Lemmas.StaticMode
 import AmVerif.Model.History
 import AmVerif.Lemmas.World
 import AmVerif.Gen.Tables
@@ -33,6 +34,15 @@ those the load cached on the way included — is settled, under the named hypoth
 absorbed failure of a nested load, no `get_cached` probe of a key that is cached before the load
 returns) and `NoProbedKeyFilled`; each is necessary (`C05_load_settles_false_absorbed`,
 `C05_load_settles_false_probe`, `C05_load_preserves_false_fill`). No hypothesis on fuel or result.
+**Static mode** (`enhance_hot_reloading`; `Lemmas/StaticMode.lean`): the cache follows the source by itself —
+one batch of events is applied when `handle_events` returns (`C05_static_events_converge_partial`, with
+registrations still in the channel `C05_static_events_converge_pending_partial`), the switch applies what was
+notified and not applied yet (`C05_enhance_converges_partial`), `hot_reload()` is a no-op
+(`C05_hot_reload_static_idle`), and over histories of loads, `hot_reload()`s, notifications and switches under
+one environment everything is settled after every reloader step (`C05_static_history_partial`, which contains
+`C05_history_settled_partial`: `C05_static_history_extends`). The pass is the same `run_update`: same named
+hypotheses, on the steps of the pass the entry point runs; both stay necessary in static mode
+(`C05_static_statement_false_rewire`, `C05_static_statement_false_miss`).
 -/
 namespace AmVerif.Props.C05
 open AmVerif.Gen AmVerif.Model AmVerif.Lemmas.TopoGraph AmVerif.Lemmas.Topo
@@ -1053,5 +1063,429 @@ so a concurrent insertion into that shard delays the look-up but never turns it 
 and consume the change). -/
 theorem C05_get_waits_for_the_shard :
     AmVerif.Gen.skel_cache_AssetMap_for_AssetMap_get = [.call .s_get_shard, .acq .s_read 0, .call .s_get, .try_, .rel 0] := rfl
+
+/-! ## The static mode (`enhance_hot_reloading`): the cache follows the source by itself
+
+`Lemmas/StaticMode.lean`. In static mode every batch of events is applied at once by the reloader
+thread (`handle_events` → `update_if_static`), the switch itself applies what was notified before and
+not applied yet, and `hot_reload()` is a no-op. The pass is the same `run_update`: the statements are
+`C05_pass_converges_partial` for the state the entry point hands to `run_update` (`takeEvents`,
+`enhanceState`), with the same three named hypotheses on the steps of THAT pass. -/
+
+/-- The pass `handle_events` runs in static mode is `run_update` from `takeEvents s r evs` (messages
+drained, the events the graph knows taken); with a drained channel that state is `s` and `r` with the
+kept events added to the set of changed entries. -/
+theorem C05_static_events_pass_state (env : Env) (fuel : Nat) (s : St) (r : RSt) (evs : List Dep)
+    (hlive : r.dead = false) (hstatic : r.static_ = true) :
+    handleEvents env fuel s r evs =
+      processMsgs (runUpdate env fuel (takeEvents s r evs).1 (takeEvents s r evs).2).1
+        (runUpdate env fuel (takeEvents s r evs).1 (takeEvents s r evs).2).2 ∧
+    (s.out = [] → takeEvents s r evs = (s, { r with toReload := keepEvents r.graph evs r.toReload })) :=
+  ⟨handleEvents_static env fuel s r evs hlive hstatic, takeEvents_drained s r evs⟩
+
+/-- **A batch of events in static mode converges** (partial: `hmiss`, `hrewire` as in
+`C05_pass_converges_partial`, on the steps of the pass `handle_events` runs).
+
+`s`, `r`: the cache and the reloader's data, reloader alive and in static mode, channel drained,
+everything registered and cached settled under the source `env` before the edits. `env'` differs from
+`env` only on `changed` (`hfile`, `hdir`); every changed entry the graph knows is among the events
+`evs` of this batch or was in the set of changed entries already (`hnotified`). The three named
+hypotheses are on `updateSteps` of the state `handle_events` hands to `run_update`
+(`takeEvents s r evs`, see `C05_static_events_pass_state`).
+
+Conclusion: when `handle_events` returns — no `hot_reload()` call — every registered, cached, dynamic
+asset is settled under the NEW source, the reloader is alive and still in static mode, the channel is
+drained (the pass registered nothing behind the sort's back), nothing is pending, the index is exact. -/
+theorem C05_static_events_converge_partial (env env' : Env) (fuel : Nat) (s : St) (r : RSt) (evs changed : List Dep)
+    {rank : Dep → Nat}
+    (hS : env.Steady) (hS' : env'.Steady) (hL : SameLoaders env env')
+    (hset : Settled env fuel s r.graph) (hG : GraphOK r.graph)
+    (hrank : ∀ a rs b, r.graph.rdepsOf a = some rs → b ∈ rs → rank b < rank a)
+    (hlive : r.dead = false) (hfuel : r.graph.length + 1 ≤ fuel)
+    (hdrained : s.out = []) (hstatic : r.static_ = true)
+    (hfile : ∀ id ext, Dep.file id ext ∉ changed → env'.read 0 id ext = env.read 0 id ext)
+    (hdir : ∀ id, Dep.dir id ∉ changed → env'.readDir 0 id = env.readDir 0 id)
+    (hnotified : ∀ d, d ∈ changed → r.graph.get d ≠ none → d ∈ evs ∨ d ∈ r.toReload)
+    (hmiss : NoMissInPass env' fuel (updateSteps env' fuel (takeEvents s r evs).1 (takeEvents s r evs).2))
+    (hret : ReloadsReturn env' fuel (updateSteps env' fuel (takeEvents s r evs).1 (takeEvents s r evs).2))
+    (hrewire : NoRewireOntoPending env' fuel (updateSteps env' fuel (takeEvents s r evs).1 (takeEvents s r evs).2)) :
+    Settled env' fuel (handleEvents env' fuel s r evs).1 (handleEvents env' fuel s r evs).2.graph ∧
+    (handleEvents env' fuel s r evs).2.dead = false ∧ (handleEvents env' fuel s r evs).1.out = [] ∧
+    (handleEvents env' fuel s r evs).2.toReload = [] ∧ (handleEvents env' fuel s r evs).2.static_ = true ∧
+    GraphOK (handleEvents env' fuel s r evs).2.graph := by
+  have e := takeEvents_drained s r evs hdrained
+  have hg : (takeEvents s r evs).2.graph = r.graph := by rw [e]
+  have ht : (takeEvents s r evs).2.toReload = keepEvents r.graph evs r.toReload := by rw [e]
+  obtain ⟨c1, c2, c3, c4, c5, _⟩ := handleEvents_static_converges hS hS' hL (Pending.of_settled hdrained hset) hG.1
+    (rank := rank) (changed := changed) (evs := evs) (by rw [hg]; exact hrank) hlive hstatic (by rw [hg]; exact hfuel)
+    hfile hdir
+    (by
+      intro d hd hk
+      rw [hg] at hk
+      rw [ht]
+      rcases hnotified d hd hk with h | h
+      · exact mem_keepEvents _ evs _ d h hk
+      · exact mem_keepEvents_of_mem _ evs _ d h)
+    hmiss hret hrewire
+  exact ⟨c1, c2, c3, c4, c5, C05_handleEvents_keeps_graphOK env' fuel s r evs hG⟩
+
+/-- The same with registrations of earlier loads still in the channel (the usual situation in static
+mode, where nobody has to call `hot_reload()`): `Pending` instead of "drained and settled" — every
+registration in the channel is good and everything registered and cached is settled unless a
+registration for it is in the channel. `handle_events` takes them first; the graph the sort walks is the
+one after that drain (`(takeEvents s r evs).2.graph`). -/
+theorem C05_static_events_converge_pending_partial (env env' : Env) (fuel : Nat) (s : St) (r : RSt)
+    (evs changed : List Dep) {rank : Dep → Nat}
+    (hS : env.Steady) (hS' : env'.Steady) (hL : SameLoaders env env')
+    (hp : Pending env fuel s r.graph) (hG : GraphOK r.graph)
+    (hrank : ∀ a rs b, (takeEvents s r evs).2.graph.rdepsOf a = some rs → b ∈ rs → rank b < rank a)
+    (hlive : r.dead = false) (hfuel : (takeEvents s r evs).2.graph.length + 1 ≤ fuel)
+    (hstatic : r.static_ = true)
+    (hfile : ∀ id ext, Dep.file id ext ∉ changed → env'.read 0 id ext = env.read 0 id ext)
+    (hdir : ∀ id, Dep.dir id ∉ changed → env'.readDir 0 id = env.readDir 0 id)
+    (hnotified : ∀ d, d ∈ changed → (takeEvents s r evs).2.graph.get d ≠ none → d ∈ evs ∨ d ∈ r.toReload)
+    (hmiss : NoMissInPass env' fuel (updateSteps env' fuel (takeEvents s r evs).1 (takeEvents s r evs).2))
+    (hret : ReloadsReturn env' fuel (updateSteps env' fuel (takeEvents s r evs).1 (takeEvents s r evs).2))
+    (hrewire : NoRewireOntoPending env' fuel (updateSteps env' fuel (takeEvents s r evs).1 (takeEvents s r evs).2)) :
+    Settled env' fuel (handleEvents env' fuel s r evs).1 (handleEvents env' fuel s r evs).2.graph ∧
+    (handleEvents env' fuel s r evs).2.dead = false ∧ (handleEvents env' fuel s r evs).1.out = [] ∧
+    (handleEvents env' fuel s r evs).2.toReload = [] ∧ (handleEvents env' fuel s r evs).2.static_ = true ∧
+    GraphOK (handleEvents env' fuel s r evs).2.graph := by
+  have ht : (processMsgs s r).2.toReload = r.toReload :=
+    drain_toReload s.out r (fun m hm => by obtain ⟨k, D, e, _⟩ := hp.good m hm; exact ⟨k, D, e⟩)
+  obtain ⟨c1, c2, c3, c4, c5, _⟩ := handleEvents_static_converges hS hS' hL hp hG.1
+    (rank := rank) (changed := changed) (evs := evs) hrank hlive hstatic hfuel hfile hdir
+    (by
+      intro d hd hk
+      show d ∈ keepEvents (processMsgs s r).2.graph evs (processMsgs s r).2.toReload
+      rcases hnotified d hd hk with h | h
+      · exact mem_keepEvents _ evs _ d h hk
+      · exact mem_keepEvents_of_mem _ evs _ d (by rw [ht]; exact h))
+    hmiss hret hrewire
+  exact ⟨c1, c2, c3, c4, c5, C05_handleEvents_keeps_graphOK env' fuel s r evs hG⟩
+
+/-- The pass `enhance_hot_reloading` runs from the local mode is `run_update` from `enhanceState s r`
+(messages drained, mode switched); with a drained channel that state is `s` and `r` in static mode. -/
+theorem C05_enhance_pass_state (env : Env) (fuel : Nat) (s : St) (r : RSt)
+    (hlive : r.dead = false) (hlocal : r.static_ = false) :
+    enhance env fuel s r =
+      processMsgs (runUpdate env fuel (enhanceState s r).1 (enhanceState s r).2).1
+        (runUpdate env fuel (enhanceState s r).1 (enhanceState s r).2).2 ∧
+    (s.out = [] → enhanceState s r = (s, { r with static_ := true })) :=
+  ⟨enhance_local env fuel s r hlive hlocal, enhanceState_drained s r⟩
+
+/-- **The switch to static mode applies what was pending** (partial: `hmiss`, `hrewire` on the steps
+of the pass `enhance_hot_reloading` runs).
+
+`s`, `r`: reloader alive, LOCAL mode, channel drained, everything settled under the source `env` before
+the edits; `env'` differs from `env` only on `changed`, and every changed entry the graph knows has been
+notified — it is in `r.toReload`, not applied yet (no `hot_reload()` since). After
+`enhance_hot_reloading` returns everything registered and cached is settled under the NEW source, the
+reloader is alive and in static mode, the channel is drained, nothing is pending, the index is exact. -/
+theorem C05_enhance_converges_partial (env env' : Env) (fuel : Nat) (s : St) (r : RSt) (changed : List Dep)
+    {rank : Dep → Nat}
+    (hS : env.Steady) (hS' : env'.Steady) (hL : SameLoaders env env')
+    (hset : Settled env fuel s r.graph) (hG : GraphOK r.graph)
+    (hrank : ∀ a rs b, r.graph.rdepsOf a = some rs → b ∈ rs → rank b < rank a)
+    (hlive : r.dead = false) (hfuel : r.graph.length + 1 ≤ fuel)
+    (hdrained : s.out = []) (hlocal : r.static_ = false)
+    (hfile : ∀ id ext, Dep.file id ext ∉ changed → env'.read 0 id ext = env.read 0 id ext)
+    (hdir : ∀ id, Dep.dir id ∉ changed → env'.readDir 0 id = env.readDir 0 id)
+    (hnotified : ∀ d, d ∈ changed → r.graph.get d ≠ none → d ∈ r.toReload)
+    (hmiss : NoMissInPass env' fuel (updateSteps env' fuel (enhanceState s r).1 (enhanceState s r).2))
+    (hret : ReloadsReturn env' fuel (updateSteps env' fuel (enhanceState s r).1 (enhanceState s r).2))
+    (hrewire : NoRewireOntoPending env' fuel (updateSteps env' fuel (enhanceState s r).1 (enhanceState s r).2)) :
+    Settled env' fuel (enhance env' fuel s r).1 (enhance env' fuel s r).2.graph ∧
+    (enhance env' fuel s r).2.dead = false ∧ (enhance env' fuel s r).1.out = [] ∧
+    (enhance env' fuel s r).2.toReload = [] ∧ (enhance env' fuel s r).2.static_ = true ∧
+    GraphOK (enhance env' fuel s r).2.graph := by
+  have e := enhanceState_drained s r hdrained
+  have hg : (enhanceState s r).2.graph = r.graph := by rw [e]
+  have ht : (enhanceState s r).2.toReload = r.toReload := by rw [e]
+  obtain ⟨c1, c2, c3, c4, c5, _⟩ := enhance_converges hS hS' hL (Pending.of_settled hdrained hset) hG.1
+    (rank := rank) (changed := changed) (by rw [hg]; exact hrank) hlive hlocal (by rw [hg]; exact hfuel)
+    hfile hdir (by intro d hd hk; rw [hg] at hk; rw [ht]; exact hnotified d hd hk)
+    hmiss hret hrewire
+  exact ⟨c1, c2, c3, c4, c5, C05_enhance_keeps_graphOK env' fuel s r hG⟩
+
+/-- The same with registrations of earlier loads still in the channel (`Pending`): the switch takes
+them first. -/
+theorem C05_enhance_converges_pending_partial (env env' : Env) (fuel : Nat) (s : St) (r : RSt) (changed : List Dep)
+    {rank : Dep → Nat}
+    (hS : env.Steady) (hS' : env'.Steady) (hL : SameLoaders env env')
+    (hp : Pending env fuel s r.graph) (hG : GraphOK r.graph)
+    (hrank : ∀ a rs b, (enhanceState s r).2.graph.rdepsOf a = some rs → b ∈ rs → rank b < rank a)
+    (hlive : r.dead = false) (hfuel : (enhanceState s r).2.graph.length + 1 ≤ fuel)
+    (hlocal : r.static_ = false)
+    (hfile : ∀ id ext, Dep.file id ext ∉ changed → env'.read 0 id ext = env.read 0 id ext)
+    (hdir : ∀ id, Dep.dir id ∉ changed → env'.readDir 0 id = env.readDir 0 id)
+    (hnotified : ∀ d, d ∈ changed → (enhanceState s r).2.graph.get d ≠ none → d ∈ r.toReload)
+    (hmiss : NoMissInPass env' fuel (updateSteps env' fuel (enhanceState s r).1 (enhanceState s r).2))
+    (hret : ReloadsReturn env' fuel (updateSteps env' fuel (enhanceState s r).1 (enhanceState s r).2))
+    (hrewire : NoRewireOntoPending env' fuel (updateSteps env' fuel (enhanceState s r).1 (enhanceState s r).2)) :
+    Settled env' fuel (enhance env' fuel s r).1 (enhance env' fuel s r).2.graph ∧
+    (enhance env' fuel s r).2.dead = false ∧ (enhance env' fuel s r).1.out = [] ∧
+    (enhance env' fuel s r).2.toReload = [] ∧ (enhance env' fuel s r).2.static_ = true ∧
+    GraphOK (enhance env' fuel s r).2.graph := by
+  have ht : (processMsgs s r).2.toReload = r.toReload :=
+    drain_toReload s.out r (fun m hm => by obtain ⟨k, D, e, _⟩ := hp.good m hm; exact ⟨k, D, e⟩)
+  obtain ⟨c1, c2, c3, c4, c5, _⟩ := enhance_converges hS hS' hL hp hG.1
+    (rank := rank) (changed := changed) hrank hlive hlocal hfuel hfile hdir
+    (by
+      intro d hd hk
+      show d ∈ (processMsgs s r).2.toReload
+      rw [ht]
+      exact hnotified d hd hk)
+    hmiss hret hrewire
+  exact ⟨c1, c2, c3, c4, c5, C05_enhance_keeps_graphOK env' fuel s r hG⟩
+
+/-- **In static mode `hot_reload()` is a no-op** (as documented): the reloader only takes the messages
+of the channel (registrations of loads) — no pass, no entry is rewritten, whatever the source, the set
+of changed entries and the fuel are. (A dead reloader does nothing at all.) -/
+theorem C05_hot_reload_static_idle (env : Env) (fuel : Nat) (s : St) (r : RSt) (hstatic : r.static_ = true) :
+    hotReload env fuel s r = (if r.dead then (s, r) else processMsgs s r) ∧
+    (hotReload env fuel s r).1.map = s.map ∧
+    (∀ k, (hotReload env fuel s r).1.lookup k = s.lookup k) ∧
+    (hotReload env fuel s r).2.static_ = true := by
+  cases hd : r.dead with
+  | true =>
+    have e : hotReload env fuel s r = (s, r) := by unfold hotReload; simp only [hd, if_true]
+    rw [e]
+    exact ⟨rfl, rfl, fun _ => rfl, hstatic⟩
+  | false =>
+    rw [hotReload_static env fuel s r hd hstatic]
+    exact ⟨rfl, rfl, fun k => processMsgs_lookup s r k, (processMsgs_static s r).trans hstatic⟩
+
+/-- **Histories in which the reloader is switched to static mode** (partial), from the empty cache and
+an empty reloader, under ONE environment without fault plan (no edit: a notification under an unchanged
+source makes the reloader re-evaluate assets whose re-evaluation reproduces the cached value — the
+statement is about the bookkeeping). The history is any list of API operations, `hot_reload()`s,
+batches of events and `enhance_hot_reloading`s such that every step satisfies `StepOK` in the state it
+starts from (`StaticHist`):
+* a load satisfies `LoadOK` (`CleanLoad`, `NoProbedKeyFilled`, `NoPendingKeyFilled`) — `get_or_insert`,
+  `remove`, `take` and the read-only operations as in `C05_history_settled_partial`;
+* a reloader step that runs `run_update` with something to reload — a batch of events in static mode,
+  `hot_reload()` or the switch in local mode after events were taken — satisfies `PassOK` for the state
+  it hands to `run_update` (`prePass`): acyclic look-ups, fuel for the sort, `NoMissInPass`,
+  `ReloadsReturn`, `NoRewireOntoPending` on the steps of that pass.
+Loads need not be separated by reloader steps: in static mode the registrations of a load stay in the
+channel until the next reloader step (`Pending`), whichever it is.
+
+Conclusion: after EVERY reloader step of the history — every `enhance_hot_reloading`, every batch of
+events (static mode: applied at once; local mode: taken), every `hot_reload()` (static mode: a no-op
+drain) — everything registered and cached is settled, the index is exact, the channel is drained, the
+reloader is alive, in static mode nothing is pending; after `enhance_hot_reloading` the mode is static. -/
+theorem C05_static_history_partial (env : Env) (hS : env.Steady) (fuel : Nat) (h : List (Env × HOp))
+    (hh : StaticHist env fuel h ({}, {})) :
+    ∀ h1 op h2, h = h1 ++ (env, op) :: h2 → op.isReloader = true →
+      Settled env fuel (runH fuel (h1 ++ [(env, op)]) ({}, {})).1 (runH fuel (h1 ++ [(env, op)]) ({}, {})).2.graph ∧
+      GraphOK (runH fuel (h1 ++ [(env, op)]) ({}, {})).2.graph ∧
+      (runH fuel (h1 ++ [(env, op)]) ({}, {})).1.out = [] ∧
+      (runH fuel (h1 ++ [(env, op)]) ({}, {})).2.dead = false ∧
+      ((runH fuel (h1 ++ [(env, op)]) ({}, {})).2.static_ = true →
+        (runH fuel (h1 ++ [(env, op)]) ({}, {})).2.toReload = []) ∧
+      (op = .enhance → (runH fuel (h1 ++ [(env, op)]) ({}, {})).2.static_ = true) := by
+  intro h1 op h2 e hop
+  obtain ⟨j1, j2, j3⟩ := (static_hist_settled hS hh (SInv.init env fuel)).2 h1 op h2 e hop
+  refine ⟨j1, C05_history_keeps_graphOK fuel _ _ graphOK_nil, j2, j3.live, j3.idle, ?_⟩
+  intro eo
+  subst eo
+  have hpre := static_hist_prefix hS hh (SInv.init env fuel) h1 ((env, .enhance) :: h2) e
+  rw [runH_append]
+  generalize runH fuel h1 ({}, {}) = x1 at hpre
+  obtain ⟨s1, r1⟩ := x1
+  exact enhance_static_after env fuel s1 r1 hpre.live
+
+/-- `C05_static_history_partial` contains `C05_history_settled_partial`: every history of loads and
+`hot_reload()`s (`LoadHist`) is a `StaticHist` — its `hot_reload()`s have nothing to reload, which needs
+no hypothesis. -/
+theorem C05_static_history_extends (env : Env) (hS : env.Steady) (fuel : Nat) (h : List (Env × HOp))
+    (hh : LoadHist env fuel h ({}, {})) : StaticHist env fuel h ({}, {}) :=
+  StaticHist.of_loadHist hS hh (HInv.init env fuel)
+
+/-! ### Non-vacuity of the static-mode statements: the chain `b → e` -/
+
+/-- `load b` (which loads `e`), then `enhance_hot_reloading`: the two registrations are taken by the
+switch; static mode -/
+def exStatic : St × RSt :=
+  runH 10 [(exEnv [1, 0] [10], .api (.load kb)), (exEnv [1, 0] [10], .enhance)] ({}, {})
+
+theorem exStatic_hist :
+    StaticHist (exEnv [1, 0] [10]) 10 [(exEnv [1, 0] [10], .api (.load kb)), (exEnv [1, 0] [10], .enhance)] ({}, {}) :=
+  .cons _ _ _ (StepOK.load (loadOK_of_check (by decide))) (.cons _ _ _ (StepOK.of_idle rfl (by decide)) (.nil _))
+
+/-- **Non-vacuity** of `C05_static_events_converge_partial`: `load b`, `enhance_hot_reloading` (the
+initial state is produced by the history theorem), `e.s` is edited from `10` to `20`, the event is
+handed to the reloader — no `hot_reload()`. All hypotheses hold. -/
+example :
+    Settled (exEnv [1, 0] [20]) 10 (handleEvents (exEnv [1, 0] [20]) 10 exStatic.1 exStatic.2 [.file "e" "s"]).1
+      (handleEvents (exEnv [1, 0] [20]) 10 exStatic.1 exStatic.2 [.file "e" "s"]).2.graph ∧
+    (handleEvents (exEnv [1, 0] [20]) 10 exStatic.1 exStatic.2 [.file "e" "s"]).2.dead = false ∧
+    (handleEvents (exEnv [1, 0] [20]) 10 exStatic.1 exStatic.2 [.file "e" "s"]).1.out = [] ∧
+    (handleEvents (exEnv [1, 0] [20]) 10 exStatic.1 exStatic.2 [.file "e" "s"]).2.toReload = [] ∧
+    (handleEvents (exEnv [1, 0] [20]) 10 exStatic.1 exStatic.2 [.file "e" "s"]).2.static_ = true ∧
+    GraphOK (handleEvents (exEnv [1, 0] [20]) 10 exStatic.1 exStatic.2 [.file "e" "s"]).2.graph :=
+  have h0 := C05_static_history_partial (exEnv [1, 0] [10]) (exEnv_steady _ _) 10 _ exStatic_hist
+    [(exEnv [1, 0] [10], .api (.load kb))] .enhance [] rfl rfl
+  C05_static_events_converge_partial (exEnv [1, 0] [10]) (exEnv [1, 0] [20]) 10 exStatic.1 exStatic.2
+    [.file "e" "s"] [.file "e" "s"]
+    (rank := exRank) (exEnv_steady _ _) (exEnv_steady _ _) (exEnv_same _ _ _ _)
+    h0.1 h0.2.1 (rank_of_entries (by decide)) h0.2.2.2.1 (by decide) h0.2.2.1 (h0.2.2.2.2.2 rfl)
+    (exEnv_unchanged_e _ _ _) (fun _ _ => rfl) (fun _ hd _ => Or.inl hd)
+    (noMiss_of_check (by decide)) (reloadsReturn_of_check (by decide)) (noRewire_of_check (by decide))
+
+/-- the conclusion, checked on the computed state: `e = 20`, `b = 21` as soon as `handle_events` returns -/
+example :
+    (handleEvents (exEnv [1, 0] [20]) 10 exStatic.1 exStatic.2 [.file "e" "s"]).1.lookup ke = some ⟨.int 20, true, 1, true, 0⟩ ∧
+    (handleEvents (exEnv [1, 0] [20]) 10 exStatic.1 exStatic.2 [.file "e" "s"]).1.lookup kb = some ⟨.int 21, true, 1, true, 1⟩ ∧
+    settledB (exEnv [1, 0] [20]) 10 (handleEvents (exEnv [1, 0] [20]) 10 exStatic.1 exStatic.2 [.file "e" "s"]).1
+      (handleEvents (exEnv [1, 0] [20]) 10 exStatic.1 exStatic.2 [.file "e" "s"]).2.graph = true ∧
+    (updateSteps (exEnv [1, 0] [20]) 10 (takeEvents exStatic.1 exStatic.2 [.file "e" "s"]).1
+      (takeEvents exStatic.1 exStatic.2 [.file "e" "s"]).2).map (·.key) = [ke, kb] := by decide
+
+/-- … and a `hot_reload()` afterwards changes nothing (`C05_hot_reload_static_idle`) -/
+example :
+    hotReload (exEnv [1, 0] [20]) 10 (handleEvents (exEnv [1, 0] [20]) 10 exStatic.1 exStatic.2 [.file "e" "s"]).1
+        (handleEvents (exEnv [1, 0] [20]) 10 exStatic.1 exStatic.2 [.file "e" "s"]).2 =
+      handleEvents (exEnv [1, 0] [20]) 10 exStatic.1 exStatic.2 [.file "e" "s"] := by
+  have h := (C05_hot_reload_static_idle (exEnv [1, 0] [20]) 10
+    (handleEvents (exEnv [1, 0] [20]) 10 exStatic.1 exStatic.2 [.file "e" "s"]).1
+    (handleEvents (exEnv [1, 0] [20]) 10 exStatic.1 exStatic.2 [.file "e" "s"]).2 (by decide)).1
+  rw [h, show (handleEvents (exEnv [1, 0] [20]) 10 exStatic.1 exStatic.2 [.file "e" "s"]).2.dead = false by decide]
+  exact processMsgs_nil _ _ (by decide)
+
+/-- **Non-vacuity** of `C05_enhance_converges_partial`: `exHist` = `load b`, `hot_reload()`, `e.s` edited
+from `10` to `20` and notified in LOCAL mode (taken, not applied); `enhance_hot_reloading` applies it. -/
+example :
+    (Settled (exEnv [1, 0] [20]) 10 (enhance (exEnv [1, 0] [20]) 10 exHist.1 exHist.2).1
+      (enhance (exEnv [1, 0] [20]) 10 exHist.1 exHist.2).2.graph ∧
+     (enhance (exEnv [1, 0] [20]) 10 exHist.1 exHist.2).2.dead = false ∧
+     (enhance (exEnv [1, 0] [20]) 10 exHist.1 exHist.2).1.out = [] ∧
+     (enhance (exEnv [1, 0] [20]) 10 exHist.1 exHist.2).2.toReload = [] ∧
+     (enhance (exEnv [1, 0] [20]) 10 exHist.1 exHist.2).2.static_ = true ∧
+     GraphOK (enhance (exEnv [1, 0] [20]) 10 exHist.1 exHist.2).2.graph) ∧
+    exHist.2.toReload = [.file "e" "s"] ∧
+    (enhance (exEnv [1, 0] [20]) 10 exHist.1 exHist.2).1.lookup ke = some ⟨.int 20, true, 1, true, 0⟩ ∧
+    (enhance (exEnv [1, 0] [20]) 10 exHist.1 exHist.2).1.lookup kb = some ⟨.int 21, true, 1, true, 1⟩ :=
+  ⟨C05_enhance_converges_partial (exEnv [1, 0] [10]) (exEnv [1, 0] [20]) 10 exHist.1 exHist.2 [.file "e" "s"]
+    (rank := exRank) (exEnv_steady _ _) (exEnv_steady _ _) (exEnv_same _ _ _ _)
+    (settled_of_check (by decide)) (C05_history_keeps_graphOK 10 _ _ graphOK_nil) (rank_of_entries (by decide))
+    (by decide) (by decide) (by decide) (by decide)
+    (exEnv_unchanged_e _ _ _) (fun _ _ => rfl) (by decide)
+    (noMiss_of_check (by decide)) (reloadsReturn_of_check (by decide)) (noRewire_of_check (by decide)),
+   by decide, by decide, by decide⟩
+
+/-- files rank above `e`, `e` above `b` and `n` -/
+def exRank2 : Dep → Nat
+  | .asset k => if k = ke then 1 else 0
+  | _ => 2
+
+/-- **Non-vacuity** of `C05_static_history_partial`, passes in static mode included: `load b`, the switch,
+a notification for `e.s` (static mode: `e` and `b` are re-evaluated at once), `load n` (its registration
+stays in the channel), `hot_reload()` (a no-op that drains it), a notification again (`e`, `b`, `n`). -/
+def exStaticHistory : List (Env × HOp) :=
+  [(exEnv [1, 0] [10], .api (.load kb)), (exEnv [1, 0] [10], .enhance),
+   (exEnv [1, 0] [10], .notify [.file "e" "s"]), (exEnv [1, 0] [10], .api (.load kn)),
+   (exEnv [1, 0] [10], .hotReload), (exEnv [1, 0] [10], .notify [.file "e" "s"])]
+
+theorem exStaticHistory_ok : StaticHist (exEnv [1, 0] [10]) 10 exStaticHistory ({}, {}) :=
+  .cons _ _ _ (StepOK.load (loadOK_of_check (by decide)))
+    (.cons _ _ _ (StepOK.of_idle rfl (by decide))
+      (.cons _ _ _ (StepOK.of_pass rfl (PassOK.of_checks exRank2 (by decide) (by decide) (by decide) (by decide) (by decide)))
+        (.cons _ _ _ (StepOK.load (loadOK_of_check (by decide)))
+          (.cons _ _ _ (StepOK.of_idle rfl (by decide))
+            (.cons _ _ _ (StepOK.of_pass rfl (PassOK.of_checks exRank2 (by decide) (by decide) (by decide) (by decide) (by decide)))
+              (.nil _))))))
+
+example :
+    Settled (exEnv [1, 0] [10]) 10 (runH 10 exStaticHistory ({}, {})).1 (runH 10 exStaticHistory ({}, {})).2.graph ∧
+    (runH 10 exStaticHistory ({}, {})).2.static_ = true ∧ (runH 10 exStaticHistory ({}, {})).2.toReload = [] :=
+  have h := C05_static_history_partial (exEnv [1, 0] [10]) (exEnv_steady _ _) 10 exStaticHistory exStaticHistory_ok
+    [(exEnv [1, 0] [10], .api (.load kb)), (exEnv [1, 0] [10], .enhance),
+     (exEnv [1, 0] [10], .notify [.file "e" "s"]), (exEnv [1, 0] [10], .api (.load kn)),
+     (exEnv [1, 0] [10], .hotReload)] (.notify [.file "e" "s"]) [] rfl rfl
+  ⟨h.1, by decide, h.2.2.2.2.1 (by decide)⟩
+
+/-- the passes of that history are not empty: the second notification re-evaluates `e`, then `b` and `n`;
+the registration of `n` was in the channel until the `hot_reload()` -/
+example :
+    (runH 10 (exStaticHistory.take 4) ({}, {})).1.out.length = 1 ∧
+    (runH 10 (exStaticHistory.take 5) ({}, {})).1.out = [] ∧
+    ((updateSteps (exEnv [1, 0] [10]) 10
+      (prePass (.notify [.file "e" "s"]) (runH 10 (exStaticHistory.take 5) ({}, {}))).1
+      (prePass (.notify [.file "e" "s"]) (runH 10 (exStaticHistory.take 5) ({}, {}))).2).map (·.key)).length = 3 ∧
+    (runH 10 exStaticHistory ({}, {})).1.lookup kn = some ⟨.int 10, true, 1, true, 2⟩ := by decide
+
+/-! ### The two order-dependent situations exist in static mode too
+
+The pass is the same `run_update`, sorted once from the graph as it is when the batch arrives: the
+named hypotheses `hrewire` (F-C05e) and `hmiss` (F-C05d) of `C05_static_events_converge_partial` cannot
+be dropped. Same scripts as `C05_full_statement_false_rewire` / `C05_full_statement_false_miss`; the
+events of ONE batch arrive as `e.s`, `b.s`. -/
+
+/-- `b = 1`, `e = 10`, both loaded and registered; static mode, nothing pending -/
+def exFlatStatic : RSt := { graph := exFlat.graph, static_ := true }
+
+/-- **F-C05e in static mode**: every hypothesis of `C05_static_events_converge_partial` except `hrewire`
+holds, and when `handle_events` returns `b` holds `12` although re-evaluating its loader gives `22`. -/
+theorem C05_static_statement_false_rewire :
+    ∃ (env env' : Env) (fuel : Nat) (s : St) (r : RSt) (evs changed : List Dep) (rank : Dep → Nat),
+      env.Steady ∧ env'.Steady ∧ SameLoaders env env' ∧ Settled env fuel s r.graph ∧ GraphOK r.graph ∧
+      (∀ a rs b, r.graph.rdepsOf a = some rs → b ∈ rs → rank b < rank a) ∧
+      r.dead = false ∧ r.graph.length + 1 ≤ fuel ∧ s.out = [] ∧ r.static_ = true ∧
+      (∀ id ext, Dep.file id ext ∉ changed → env'.read 0 id ext = env.read 0 id ext) ∧
+      (∀ id, Dep.dir id ∉ changed → env'.readDir 0 id = env.readDir 0 id) ∧
+      (∀ d, d ∈ changed → d ∈ evs) ∧
+      NoMissInPass env' fuel (updateSteps env' fuel (takeEvents s r evs).1 (takeEvents s r evs).2) ∧
+      ReloadsReturn env' fuel (updateSteps env' fuel (takeEvents s r evs).1 (takeEvents s r evs).2) ∧
+      ¬ NoRewireOntoPending env' fuel (updateSteps env' fuel (takeEvents s r evs).1 (takeEvents s r evs).2) ∧
+      StaleAt env' fuel (handleEvents env' fuel s r evs) kb ∧
+      (handleEvents env' fuel s r evs).1.lookup kb = some ⟨.int 12, true, 1, true, 1⟩ ∧
+      reloadOut env' fuel (handleEvents env' fuel s r evs).1 kb = .ok (.int 22) := by
+  have hstale : StaleAt (exEnv [2, 0] [20]) 10
+      (handleEvents (exEnv [2, 0] [20]) 10 (exSt 1 10) exFlatStatic [.file "e" "s", .file "b" "s"]) kb :=
+    staleAt_of_check (by decide)
+  have hS := exEnv_steady [1] [10]
+  have hS' := exEnv_steady [2, 0] [20]
+  have hL := exEnv_same [1] [10] [2, 0] [20]
+  have hset : Settled (exEnv [1] [10]) 10 (exSt 1 10) exFlatStatic.graph := settled_of_check (by decide)
+  have hrank : ∀ a rs b, exFlatStatic.graph.rdepsOf a = some rs → b ∈ rs → exRank b < exRank a :=
+    rank_of_entries (by decide)
+  have hfile := exEnv_unchanged [1] [10] [2, 0] [20]
+  have hnot : ∀ d, d ∈ [Dep.file "b" "s", Dep.file "e" "s"] → d ∈ [Dep.file "e" "s", Dep.file "b" "s"] := by decide
+  refine ⟨exEnv [1] [10], exEnv [2, 0] [20], 10, exSt 1 10, exFlatStatic, [.file "e" "s", .file "b" "s"],
+    [.file "b" "s", .file "e" "s"], exRank,
+    hS, hS', hL, hset, exFlat_graphOK, hrank, rfl, by decide, rfl, rfl, hfile, fun _ _ => rfl, hnot,
+    noMiss_of_check (by decide), reloadsReturn_of_check (by decide), ?_, hstale, by decide, by decide⟩
+  intro hrew
+  exact hstale.not_settled
+    (C05_static_events_converge_partial _ _ 10 _ _ _ _ hS hS' hL hset exFlat_graphOK hrank rfl (by decide) rfl rfl
+      hfile (fun _ _ => rfl) (fun d hd _ => Or.inl (hnot d hd)) (noMiss_of_check (by decide))
+      (reloadsReturn_of_check (by decide)) hrew).1
+
+/-- **F-C05d in static mode**: every hypothesis of `C05_static_events_converge_partial` except `hmiss`
+holds; the reload of `b` loads `n` for the first time, from the stale `e`; when `handle_events` returns
+`n` is registered (its registration was drained by `handle_events` itself) and holds `10` although
+re-evaluating its loader gives `20`. -/
+theorem C05_static_statement_false_miss :
+    ∃ (env env' : Env) (fuel : Nat) (s : St) (r : RSt) (evs changed : List Dep) (rank : Dep → Nat),
+      env.Steady ∧ env'.Steady ∧ SameLoaders env env' ∧ Settled env fuel s r.graph ∧ GraphOK r.graph ∧
+      (∀ a rs b, r.graph.rdepsOf a = some rs → b ∈ rs → rank b < rank a) ∧
+      r.dead = false ∧ r.graph.length + 1 ≤ fuel ∧ s.out = [] ∧ r.static_ = true ∧
+      (∀ id ext, Dep.file id ext ∉ changed → env'.read 0 id ext = env.read 0 id ext) ∧
+      (∀ id, Dep.dir id ∉ changed → env'.readDir 0 id = env.readDir 0 id) ∧
+      (∀ d, d ∈ changed → d ∈ evs) ∧
+      ¬ NoMissInPass env' fuel (updateSteps env' fuel (takeEvents s r evs).1 (takeEvents s r evs).2) ∧
+      ReloadsReturn env' fuel (updateSteps env' fuel (takeEvents s r evs).1 (takeEvents s r evs).2) ∧
+      NoRewireOntoPending env' fuel (updateSteps env' fuel (takeEvents s r evs).1 (takeEvents s r evs).2) ∧
+      StaleAt env' fuel (handleEvents env' fuel s r evs) kn ∧
+      (handleEvents env' fuel s r evs).1.lookup kn = some ⟨.int 10, true, 0, false, 2⟩ ∧
+      reloadOut env' fuel (handleEvents env' fuel s r evs).1 kn = .ok (.int 20) := by
+  refine ⟨exEnv [1] [10], exEnv [2, 1] [20], 10, exSt 1 10, exFlatStatic, [.file "e" "s", .file "b" "s"],
+    [.file "b" "s", .file "e" "s"], exRank,
+    exEnv_steady _ _, exEnv_steady _ _, exEnv_same _ _ _ _, settled_of_check (by decide), exFlat_graphOK,
+    rank_of_entries (by decide), rfl, by decide, rfl, rfl, exEnv_unchanged _ _ _ _, fun _ _ => rfl, by decide,
+    fun h => absurd (noMiss_check_of h) (by decide), reloadsReturn_of_check (by decide),
+    noRewire_of_check (by decide), staleAt_of_check (by decide), by decide, by decide⟩
 
 end AmVerif.Props.C05
